@@ -55,14 +55,20 @@ def c03core (withStat : Bool) (args : List String) : String :=
           -- targets whose implementation is only f32-accurate even on the f64 backend (built-in Gaussian: f32 parameters;
           -- Student-t: burn's autodiff of div_scalar/log) get the f32-sized probes
           let coarse := ty = "f32" || tspec.head? == some "student" || tspec.head? == some "gauss2"
-          let e : Float := (if coarse then 1e-5 else 2e-7) * scale
+          let e : Float := (if ty = "f32" then 1e-5 else 2e-7) * scale
+          -- the discrete structure (depth, counts, decisions) must also survive an f32-sized perturbation for those targets
+          let ec : Float := (if coarse then 1e-5 else 2e-7) * scale
+          let structOk := match run (pos.map (· * (1 + ec))) (mom.map (· * (1 - ec))) eps,
+                                run (pos.map (· * (1 - ec))) (mom.map (· * (1 + ec))) (eps * (1 + ec)) with
+            | some a, some b => fmtLoop a == fmtLoop st && fmtLoop b == fmtLoop st
+            | _, _ => false
           let alt1 := run (pos.map (· * (1 + e))) (mom.map (· * (1 - e))) eps
           let alt2 := run (pos.zipIdx.map fun (x, i) => x * (1 + (if i % 2 == 0 then e else -e)) + e) (mom.zipIdx.map fun (x, i) => x * (1 + (if i % 2 == 1 then e else -e))) (eps * (1 + e))
           let tol : Float := if ty = "f32" then 3e-3 else 2e-5
           let biasOk := match runB kap, runB (-kap) with
             | some a, some b => fmtLoop a == fmtLoop st && fmtLoop b == fmtLoop st
             | _, _ => false
-          let stable := biasOk && match alt1, alt2 with
+          let stable := biasOk && structOk && match alt1, alt2 with
             | some a, some b => fmtLoop a == fmtLoop st && fmtLoop b == fmtLoop st
                 && devOf st.pos a.pos ≤ 0.1 * tol && devOf st.pos b.pos ≤ 0.1 * tol
                 && (st.alpha - a.alpha).abs ≤ 0.1 * tol * (1 + st.alpha.abs) && (st.alpha - b.alpha).abs ≤ 0.1 * tol * (1 + st.alpha.abs)
@@ -101,11 +107,14 @@ def c03t (args : List String) : String :=
         let key (r : Tree Float (List Float)) := toString r.n ++ " " ++ (if r.s then "T" else "F") ++ " " ++ toString r.nalpha
         let scale : Float := max 1 (Float.ofNat (2 ^ j) / 100)
         let coarse := ty = "f32" || tspec.head? == some "student" || tspec.head? == some "gauss2"
-        let e : Float := (if coarse then 1e-5 else 2e-7) * scale
+        let e : Float := (if ty = "f32" then 1e-5 else 2e-7) * scale
+        let ec : Float := (if coarse then 1e-5 else 2e-7) * scale
         let a := run (pos.map (· * (1 + e))) (mom.map (· * (1 - e))) eps
         let b := run (pos.zipIdx.map fun (x, i) => x * (1 + (if i % 2 == 0 then e else -e)) + e) (mom.zipIdx.map fun (x, i) => x * (1 + (if i % 2 == 1 then e else -e))) (eps * (1 + e))
         let tol : Float := if ty = "f32" then 3e-3 else 2e-5
         let stable := key a == key r && key b == key r && key (runB kap) == key r && key (runB (-kap)) == key r
+          && key (run (pos.map (· * (1 + ec))) (mom.map (· * (1 - ec))) eps) == key r
+          && key (run (pos.map (· * (1 - ec))) (mom.map (· * (1 + ec))) (eps * (1 + ec))) == key r
           && devOf r.prime.pos a.prime.pos ≤ 0.1 * tol && devOf r.prime.pos b.prime.pos ≤ 0.1 * tol
           && devOf r.minus.pos a.minus.pos ≤ 0.1 * tol && devOf r.plus.pos b.plus.pos ≤ 0.1 * tol
           && (r.alpha - a.alpha).abs ≤ 0.1 * tol * (1 + r.alpha.abs) && (r.alpha - b.alpha).abs ≤ 0.1 * tol * (1 + r.alpha.abs)
